@@ -2,7 +2,68 @@
 
 package iterable
 
+import (
+	"fmt"
+	"reflect"
+	"strings"
+)
+
 // VerifMixerState exposes the selector state and the look-ahead flags of a Mixer.
 func VerifMixerState[E any](mr *Mixer[E]) (st byte, load1, load2 bool) {
 	return mr.st, mr.src1.load, mr.src2.load
+}
+
+// VerifMixerDump renders every field of the Mixer value (recursively, whatever fields it has): scalars by value,
+// iterator fields by which of the two given input iterators they hold, functions not at all. Two mixers with equal
+// dumps over equal inputs behave alike - that is what makes it usable as (part of) a state key.
+func VerifMixerDump[E any](mr *Mixer[E], it1, it2 Iterator[E]) string {
+	var b strings.Builder
+	var walk func(v reflect.Value, name string)
+	walk = func(v reflect.Value, name string) {
+		switch v.Kind() {
+		case reflect.Func:
+		case reflect.Interface:
+			tag := "other"
+			if v.IsNil() {
+				tag = "nil"
+			} else {
+				switch {
+				case sameIface(v, reflect.ValueOf(&it1).Elem()):
+					tag = "input1"
+				case sameIface(v, reflect.ValueOf(&it2).Elem()):
+					tag = "input2"
+				}
+			}
+			fmt.Fprintf(&b, "%s=%s ", name, tag)
+		case reflect.Struct:
+			for i := 0; i < v.NumField(); i++ {
+				walk(v.Field(i), name+"."+v.Type().Field(i).Name)
+			}
+		case reflect.Ptr:
+			if v.IsNil() {
+				fmt.Fprintf(&b, "%s=nil ", name)
+			} else {
+				walk(v.Elem(), name+"*")
+			}
+		default:
+			fmt.Fprintf(&b, "%s=%v ", name, v)
+		}
+	}
+	walk(reflect.ValueOf(mr).Elem(), "m")
+	return b.String()
+}
+
+// sameIface tells whether two interface values hold the same dynamic pointer (or equal comparable value).
+func sameIface(a, b reflect.Value) bool {
+	if a.IsNil() || b.IsNil() {
+		return a.IsNil() && b.IsNil()
+	}
+	ea, eb := a.Elem(), b.Elem()
+	if ea.Type() != eb.Type() {
+		return false
+	}
+	if ea.Kind() == reflect.Ptr {
+		return ea.Pointer() == eb.Pointer()
+	}
+	return false
 }
